@@ -309,6 +309,34 @@ func checkC12(c *CaseC12, fl *Fails) {
 }
 
 func sweepC12(tier string, emit func(*CaseC12)) {
+	// the offsets in actual use: 2^24 (the library's own altitude offset), 2^25, 2^23 and their neighbours, negated
+	// too, against every zoom pair of {0,1,2,24,25,26} and the base exponents around 25
+	for _, dir := range []bool{true, false} {
+		for _, sz := range []int64{0, 1, 2, 24, 25, 26} {
+			for _, dz := range []int64{0, 1, 2, 24, 25, 26} {
+				for _, e := range []int64{24, 25, 26} {
+					for _, k := range []uint{23, 24, 25, 26} {
+						for _, d := range []int64{-1, 0, 1} {
+							for _, sign := range []int64{1, -1} {
+								off := sign * ((int64(1) << k) + d)
+								m := int64(1) << uint(sz)
+								idxs := []int64{-1, 0, 1, m - 1, m}
+								if dir {
+									idxs = append(idxs, -m, -m-1)
+								}
+								for _, i := range idxs {
+									c := &CaseC12{ZToKey: dir, Index: i, SrcZoom: sz, DstZoom: dz, E: e, Off: off}
+									if c12Safe(c) {
+										emit(c)
+									}
+								}
+							}
+						}
+					}
+				}
+			}
+		}
+	}
 	zooms := []int64{0, 1, 2, 3, 24, 25, 26, 27}
 	es := []int64{0, 24, 25, 26}
 	maxOff := int64(5)
